@@ -55,7 +55,7 @@ def run(ck):
 def one(ck, cls):
     F = ck.facts
     tag = "OwnThreadHandler<%s>" % cls.split("<", 1)[1].rstrip(">").split("::")[-1]
-    get = lambda nm: [f for f in F.fns.values() if f.cls == cls and f.name == cls + "::" + nm]
+    get = lambda nm: [F.flat(f) for f in F.fns.values() if f.cls == cls and f.name == cls + "::" + nm]
     dt = get("~OwnThreadHandler")
     mv = get("moveToOwnThread")
     rs = get("resetOwnThread")
@@ -113,8 +113,9 @@ def one(ck, cls):
         okc = src is not None and (is_this_field(src, W) or (skip_copies(src).get("k") == "new"))
         ck.ob("C04-O5", sitestr(lf, d), okc, "%s: what is deleted is this handler's worker" % tag if okc else "%s: the finished slot deletes %s" % (tag, describe(src)), key="moveToOwnThread|deletes-other")
     # deletes elsewhere
-    for f in F.fns.values():
-        if f.cls and f.cls.startswith(cls) or (f.lambda_of and F.fns.get(f.lambda_of) is not None and (F.fns[f.lambda_of].cls or "").startswith(cls)):
+    in_cls = lambda f: bool(f.cls and f.cls.startswith(cls)) or bool(f.lambda_of and F.fns.get(f.lambda_of) is not None and (F.fns[f.lambda_of].cls or "").startswith(cls))
+    for f in F.units_of(in_cls):
+        if True:
             for d in f.find(lambda y: y.get("k") == "delete"):
                 if dels and f.id == dels[0][1].id:
                     continue
@@ -194,9 +195,7 @@ def one(ck, cls):
     ok = all(const_int(r.get("e")) == 1 for r in rets) and bool(rets)
     ck.ob("C04-O4", sitestr(pr), ok, "%s: process() reports success" % tag, key="process|return")
     writers = {}
-    for f in F.fns.values():
-        if not ((f.cls or "").startswith(cls) or (f.lambda_of and (F.fns.get(f.lambda_of) and (F.fns[f.lambda_of].cls or "").startswith(cls)))):
-            continue
+    for f in F.units_of(in_cls):
         for n in f.find(lambda y: y.get("k") == "binop" and y.get("op") == "=" and is_this_field(y.get("lhs"), W)):
             writers.setdefault(strip_tmpl(f.name).split("::")[-1], []).append((f, n))
         # reads under the mutex
